@@ -1291,8 +1291,42 @@ def check_C06(A, R, tier):
                      detail="a stale consider signal in the same batch repeats the emission; the second one hits the job in %s and is an internal error"
                             % A.snames(after), site=A.site(v))
     R.floor("R6.6", "emissions that must not be repeated", n, 3)
+    # ... and a consider signal is only queued after the pending list was searched for a signal to the same job: with two pending
+    # consider signals for one job the first makes it ready and the second repeats the emission
+    from rules_more import receiver_local
+    seen_push = set()
+    n = 0
+    SCANS = ("::iter", "::iter_mut", "::into_iter", "::contains", "::any", "::find", "::position", "::contains_key")
+    for (k, s), run in H.items():
+        for v in run.by_kind("push_signal"):
+            if v["container"] == "queue" or K["consider"] not in v["kinds"] or (v["fn"], v["bb"]) in seen_push:
+                continue
+            seen_push.add((v["fn"], v["bb"]))
+            body = A.facts.body(v["fn"])
+            t = body.blocks[v["bb"]]["term"]["t"]
+            if t["k"] != "call":
+                continue
+            cont = receiver_local(body, t)
+            scans = []
+            for blk in body.blocks:
+                if blk["cleanup"]:
+                    continue
+                t2 = blk["term"]["t"]
+                if t2["k"] == "call" and t2["args"] and blk["i"] != v["bb"]:
+                    g2 = (M.callee_of(t2) or ("",))[0]
+                    if any(g2.endswith(x) for x in SCANS) and receiver_local(body, t2) == cont and body.dominates(blk["i"], v["bb"]):
+                        scans.append(blk["i"])
+            n += 1
+            R.ob("R6.6", "%s | a consider signal is queued only after the pending signals were searched for one to the same job" % short(v["fn"]),
+                 bool(scans), detail="two consider signals for one job can be pending in the same batch: the first makes the job ready, "
+                                     "the second repeats the ready signal, which the handler rejects with an internal error", site=A.site(v))
+    R.floor("R6.6", "sites that queue a consider signal", n, 3)
     # R6.7 the history can be assembled for every way a job without output can end
     rule_history_after_any_outcome(A, R, "R6.7")
+    # R6.9 (= R12.p) startup pruning is complete: a half-pruned chain of unused Ephemerals is later validated against records of
+    # jobs that have no current output (internal error in the dependency check)
+    from rules_history import rule_prune_fixpoint
+    rule_prune_fixpoint(A, R, "R6.9")
     # R6.8 the startup classification decides the 'needed' flag of every incoming dependency of every job it visits, on every path:
     # jobs visited later (their upstreams: reverse topological order) read those flags and treat an undecided one as an internal error
     rule_startup_declares_edges(A, R, "R6.8")
